@@ -15,6 +15,10 @@ GRIDS = {
     # grid times a hair before / after the event times of the all-default execution
     "near-miss": [0.0, E * (1 - 2e-7), 2 * E * (1 + 2e-7), 3 * E * (1 - 2e-7), 4 * E * (1 + 2e-7), 1.6],
     "two-points": [0.0, 0.7],
+    # not equally spaced, although the first and the last step equal the mean step (observations bunched in the middle);
+    # the second event of the all-default exact execution (2E) and the second fixed leap (0.8) fall in intervals whose
+    # index differs from the one an equally spaced lattice over the same range would give
+    "late-obs": [0.0, 0.25, 0.5, 0.6, 0.7, 1.25, 1.5, 1.75, 2.0],
 }
 
 
@@ -37,7 +41,7 @@ def main(argv=None):
         x0 = stoch.legal_x0(d, stoch.X0S[ns][0])
         x00 = stoch.legal_x0(d, [0] * ns)          # possibly no enabled event at all
         for mode in ([("exact",), ("tau_fixed", 0.4)] if (quick and not is_seed) else [("exact",), ("tau_fixed", 0.4), ("tau_adaptive", 0.3)]):
-            names = list(GRIDS) if (is_seed or not quick) else ["uniform", "fine", "near-miss", "late-start"]
+            names = list(GRIDS) if (is_seed or not quick) else ["uniform", "fine", "near-miss", "late-start", "late-obs"]
             for gname in names:
                 g = GRIDS[gname]
                 conts = ["list", "tuple", "array"] if is_seed else ["array" if (i % 2) else "list"]
